@@ -5,4 +5,5 @@ var checks = map[string]checkDef{
 	"C01": {Harness: "c01", Instrument: true},
 	"C20": {Harness: "c01", Instrument: true},
 	"C06": {Harness: "c06", Instrument: true},
+	"C02": {Harness: "c02", Instrument: true},
 }
